@@ -2,7 +2,16 @@
 
 # components: correspondence components (model vs impl) in the dependency closure of the property's theorems
 # oracle_prefix: oracle names (evaluated on the REAL observations) that state this property
+AMF0_RULE = ("amf0: size-biased random value trees (numbers incl. NaN payloads/-0/inf, strings incl. multi-byte UTF-8, "
+             "boundary lengths 65534..70000 in bytes and characters, empty/long property names), reference encodings with "
+             "ECMA arrays / duplicate names / all 256 boolean bytes (decx), all 256 markers at 3 value positions, every "
+             "truncation point of short encodings (dect), random and mutated byte strings; non-trivial = more than one token of value")
+
 PROPS = {
+    "C04": {"components": ["amf0"], "rule": AMF0_RULE,
+            "explanation": "oracle C04.roundtrip: the real decoder applied to the real encoder's bytes returns the canonical input, consuming all bytes; C04.error_only_when_inexpressible"},
+    "C12": {"components": ["amf0"], "rule": AMF0_RULE,
+            "explanation": "oracles: C12.encode_is_spec (real bytes = extracted reference encoder on the iteration order the real code used), C12.decode_reference (decx: independent Python reference encoder + denoted value), C12.truncation_prefix (dect)"},
     "C20": {
         "components": ["time"],
         "rule": "time: boundary pairs (a, a+d) for d around 0, 2^31, 2^32 plus random u32 pairs; "
